@@ -13,6 +13,7 @@ CONSTANTS
   Solve2Modes <- Solve2OK
   Progbars <- PbBoth
   Progbar0Modes <- PbOK
+  IntRepeatModes <- IrOK
   PrintCases = FALSE
 INVARIANT TypeOK
 INVARIANT Schrodinger
